@@ -3,6 +3,7 @@
 use crate::proto::{Req, Resp};
 use std::collections::VecDeque;
 use std::io::{BufRead, BufReader, Write};
+use std::path::PathBuf;
 use std::process::{Child, ChildStdin, Command, Stdio};
 use std::sync::mpsc::{Receiver, RecvTimeoutError, channel};
 use std::sync::{Arc, Mutex};
@@ -21,6 +22,11 @@ pub struct Worker {
     stdin: Option<ChildStdin>,
     rx: Option<Receiver<String>>,
     stderr_tail: Arc<Mutex<VecDeque<String>>>,
+    stderr_pins: Arc<Mutex<Vec<String>>>,
+    stderr_done: Arc<std::sync::atomic::AtomicBool>,
+    /// None = this executable with the argument `worker`; Some = another binary (auxiliary worker)
+    cmd: Option<(PathBuf, Vec<String>)>,
+    envs: Vec<(String, String)>,
     pub respawns: u64,
     pub requests: u64,
     pub watchdog: Duration,
@@ -33,6 +39,10 @@ impl Worker {
             stdin: None,
             rx: None,
             stderr_tail: Arc::new(Mutex::new(VecDeque::new())),
+            stderr_pins: Arc::new(Mutex::new(Vec::new())),
+            stderr_done: Arc::new(std::sync::atomic::AtomicBool::new(true)),
+            cmd: None,
+            envs: vec![],
             respawns: 0,
             requests: 0,
             watchdog: Duration::from_secs(60),
@@ -41,16 +51,44 @@ impl Worker {
         w
     }
 
+    /// A worker running another binary that speaks one-JSON-line-per-request (see `call_raw`).
+    /// It is spawned lazily on the first call, so `env` can still be applied.
+    pub fn with_command(path: impl Into<PathBuf>, args: &[&str]) -> Worker {
+        Worker {
+            child: None,
+            stdin: None,
+            rx: None,
+            stderr_tail: Arc::new(Mutex::new(VecDeque::new())),
+            stderr_pins: Arc::new(Mutex::new(Vec::new())),
+            stderr_done: Arc::new(std::sync::atomic::AtomicBool::new(true)),
+            cmd: Some((path.into(), args.iter().map(|s| s.to_string()).collect())),
+            envs: vec![],
+            respawns: 0,
+            requests: 0,
+            watchdog: Duration::from_secs(60),
+        }
+    }
+
+    /// Extra environment variable for the subprocess (effective from the next spawn).
+    pub fn env(mut self, k: &str, v: &str) -> Worker {
+        self.envs.push((k.to_string(), v.to_string()));
+        self
+    }
+
     fn spawn(&mut self) {
-        let exe = std::env::current_exe().expect("current_exe");
-        let mut child = Command::new(exe)
-            .arg("worker")
+        let (exe, args) = match &self.cmd {
+            Some((p, a)) => (p.clone(), a.clone()),
+            None => (std::env::current_exe().expect("current_exe"), vec!["worker".to_string()]),
+        };
+        let mut child = Command::new(&exe)
+            .args(&args)
+            .envs(self.envs.iter().map(|(k, v)| (k.as_str(), v.as_str())))
             .stdin(Stdio::piped())
             .stdout(Stdio::piped())
             .stderr(Stdio::piped())
             .env("RUST_BACKTRACE", "0")
             .spawn()
-            .expect("spawn worker");
+            .unwrap_or_else(|e| panic!("spawn worker {}: {e}", exe.display()));
         let stdin = child.stdin.take().unwrap();
         let stdout = child.stdout.take().unwrap();
         let stderr = child.stderr.take().unwrap();
@@ -71,18 +109,32 @@ impl Worker {
         });
         let tail = Arc::new(Mutex::new(VecDeque::new()));
         let tail2 = tail.clone();
+        let pins = Arc::new(Mutex::new(Vec::new()));
+        let pins2 = pins.clone();
+        let done = Arc::new(std::sync::atomic::AtomicBool::new(false));
+        let done2 = done.clone();
         std::thread::spawn(move || {
             let r = BufReader::new(stderr);
             for line in r.lines() {
                 let Ok(line) = line else { break };
                 let mut t = tail2.lock().unwrap();
+                // the headline of a sanitizer report comes long before its last 30 lines: pin it
+                if line.contains("AddressSanitizer") {
+                    let mut p = pins2.lock().unwrap();
+                    if p.len() < 4 {
+                        p.push(line.clone());
+                    }
+                }
                 t.push_back(line);
                 while t.len() > 30 {
                     t.pop_front();
                 }
             }
+            done2.store(true, std::sync::atomic::Ordering::SeqCst);
         });
+        self.stderr_done = done;
         self.stderr_tail = tail;
+        self.stderr_pins = pins;
         self.child = Some(child);
         self.stdin = Some(stdin);
         self.rx = Some(rx);
@@ -114,11 +166,26 @@ impl Worker {
     }
 
     pub fn call(&mut self, req: &Req) -> Result<Resp, WorkerFail> {
+        let line = serde_json::to_string(req).expect("serialize request");
+        let l = self.call_raw(&line)?;
+        match serde_json::from_str::<Resp>(&l) {
+            Ok(r) => Ok(r),
+            Err(e) => {
+                let status = self.kill();
+                self.respawns += 1;
+                self.spawn();
+                Err(WorkerFail::Died { status: format!("bad response ({e}); {status}"), stderr_tail: l.chars().take(300).collect() })
+            }
+        }
+    }
+
+    /// Send one line (without the newline), return the response line.
+    pub fn call_raw(&mut self, request: &str) -> Result<String, WorkerFail> {
         if self.child.is_none() {
             self.spawn();
         }
         self.requests += 1;
-        let mut line = serde_json::to_string(req).expect("serialize request");
+        let mut line = request.to_string();
         line.push('\n');
         let write_ok = self.stdin.as_mut().map(|s| s.write_all(line.as_bytes()).and_then(|_| s.flush()).is_ok()).unwrap_or(false);
         if !write_ok {
@@ -129,15 +196,7 @@ impl Worker {
             return Err(WorkerFail::Died { status, stderr_tail: tail });
         }
         match self.rx.as_ref().unwrap().recv_timeout(self.watchdog) {
-            Ok(l) => match serde_json::from_str::<Resp>(&l) {
-                Ok(r) => Ok(r),
-                Err(e) => {
-                    let status = self.kill();
-                    self.respawns += 1;
-                    self.spawn();
-                    Err(WorkerFail::Died { status: format!("bad response ({e}); {status}"), stderr_tail: l.chars().take(300).collect() })
-                }
-            },
+            Ok(l) => Ok(l),
             Err(RecvTimeoutError::Timeout) => {
                 self.kill();
                 self.respawns += 1;
@@ -156,8 +215,21 @@ impl Worker {
     }
 
     fn take_tail(&mut self) -> String {
+        // called after kill(): the pipe is closed, let the reader thread drain what was written
+        for _ in 0..250 {
+            if self.stderr_done.load(std::sync::atomic::Ordering::SeqCst) {
+                break;
+            }
+            std::thread::sleep(Duration::from_millis(2));
+        }
         let t = self.stderr_tail.lock().unwrap();
-        t.iter().cloned().collect::<Vec<_>>().join("\n")
+        let pins = self.stderr_pins.lock().unwrap();
+        let mut lines: Vec<String> = pins.iter().filter(|p| !t.contains(p)).cloned().collect();
+        if !lines.is_empty() {
+            lines.push("[...]".into());
+        }
+        lines.extend(t.iter().cloned());
+        lines.join("\n")
     }
 }
 
